@@ -26,6 +26,12 @@ def harnesses(tier):
                    nobody_ok='*', ignore_failed=['no-body'], unwind=18, timeout=900, mem_gb=8, functional=True, replay=False,
                    bounds='body and list entries registering 0..1 first uses of each note kind; all extension words; HTML',
                    desc='mmd_engine_export_token_tree (HTML): every note first called in the body or in an entry of another list is known when its own list is printed'))
+    for k0, k1 in ((0, 1), (1, 0), (0, 0), (2, 5)):
+        hs.append(dict(name='c10_toc_targets_h%d_h%d' % (k0 + 1, k1 + 1), src='c10/toc.c', defs=dict(DS_NO_PRINTF=1, K0=k0, K1=k1), pool_off=True,
+                       units=[dict(src='repo:html.c', remove=['mmd_export_token_tree_html']), 'repo:token.c', 'repo:stack.c', 'repo:object_pool.c', 'repo:char.c', 'common/ds_null.c'],
+                       nobody_ok='*', ignore_failed=['no-body'], unwind=8, unwindset=['mmd_export_toc_entry_html:3'], timeout=600, mem_gb=6, functional=True, replay=False,
+                       bounds='two ATX headings of levels %d and %d, base header level 1..3, all extension words except random ids' % (k0 + 1, k1 + 1),
+                       desc='html.c heading case vs mmd_export_toc_html: a TOC entry links only to an id that its heading carries'))
     hs.append(dict(name='c10_heading_ids', src='c10/headings.c', defs=dict(DS_CAP=16), pool_off=True,
                    units=[dict(src='repo:writer.c', remove=['manual_label_from_header', 'label_from_token', 'link_new'], cflags=['-include', 'vh_libc.h']), 'repo:token.c', 'repo:stack.c', 'repo:object_pool.c', 'repo:char.c', 'common/ds_model.c'],
                    nobody_ok='*', ignore_failed=['no-body'], unwind=12, timeout=600, mem_gb=6, functional=True,
